@@ -12,3 +12,41 @@ int erase_barrier_one_path(char *dest, size_t n) {
 static void prim(volatile unsigned *d, unsigned n) { while (n--) *d++ = 0; }
 int erase_via_prim(unsigned *dest, size_t n) { prim(dest, (unsigned)n); return 0; }
 int erase_bzero(char *dest, size_t n) { explicit_bzero(dest, n); return 0; }
+/* fill-value lanes: the word store must hold the fill byte in every byte */
+#include <stdint.h>
+void fx_fill_good(void *dest, uint32_t len, uint8_t value) {
+    volatile uint8_t *dp = dest; uint64_t v = value;
+    if (value) v |= (v << 8) | (v << 16) | (v << 24) | (v << 32) | (v << 40) | (v << 48) | (v << 56);
+    while (len >= 8) { *(volatile uint64_t *)dp = v; dp += 8; len -= 8; }
+    while (len--) *dp++ = value;
+}
+void fx_fill_signext(void *dest, uint32_t len, uint8_t value) {      /* the 32-bit int pattern sign-extends into the upper half */
+    volatile uint8_t *dp = dest; uint64_t v;
+    v = value | (value << 8) | (value << 16) | (value << 24);
+    v |= v << 32;
+    while (len >= 8) { *(volatile uint64_t *)dp = v; dp += 8; len -= 8; }
+    while (len--) *dp++ = value;
+}
+void fx_fill_missing_lane(void *dest, uint32_t len, uint8_t value) {  /* one shift forgotten */
+    volatile uint8_t *dp = dest; uint64_t v = value;
+    v |= (v << 8) | (v << 16) | (v << 24) | (v << 32) | (v << 40) | (v << 56);
+    while (len >= 8) { *(volatile uint64_t *)dp = v; dp += 8; len -= 8; }
+    while (len--) *dp++ = value;
+}
+/* count split: quotient and remainder must come from the same count */
+void fx_split_good(void *dest, uint32_t len, uint8_t value) {
+    volatile uint8_t *dp = dest; uint64_t count = len, lcount;
+    for (; count && ((uintptr_t)dp & 7); count--) *dp++ = value;
+    lcount = count >> 3;
+    while (lcount--) { *(volatile uint64_t *)dp = 0; dp += 8; }
+    count &= 7;
+    for (; count; count--) *dp++ = value;
+}
+void fx_split_other_count(void *dest, uint32_t len, uint8_t value) {     /* tail from the original length */
+    volatile uint8_t *dp = dest; uint64_t count = len, lcount;
+    for (; count && ((uintptr_t)dp & 7); count--) *dp++ = value;
+    lcount = count >> 3;
+    while (lcount--) { *(volatile uint64_t *)dp = 0; dp += 8; }
+    count = len & 7;
+    for (; count; count--) *dp++ = value;
+}
